@@ -185,6 +185,12 @@ def gen_geom(rng):
         gkind = 'almost_zeros'
     if gkind in ('dense', 'zeros') and np.any(g != 0.0) and np.max(np.abs(g)) < 1e-10:
         g = g * (1e-10 / np.max(np.abs(g)))
+    if gkind == 'dense' and rng.random() < 0.08:
+        # a small but non-negligible gradient (Lagrange gradients scale like 1/Delta): every component well above the
+        # routine's ZERO_THRESH = 1e-14, norm far below 1
+        g = g / gscale * 10.0 ** rng.uniform(-11.5, -7.5)
+        g[np.abs(g) < 1e-13] = 1e-13
+        gkind = 'small'
     u = rng.random()
     c = 0.0 if u < 0.3 else (1.0 if u < 0.5 else float(rng.standard_normal() * 10.0 ** rng.uniform(-3, 3)))
     lower = np.empty(n)
